@@ -291,6 +291,14 @@ fn c08(tier: &str, seed: u64) -> GridCheck {
     let count = if tier == "quick" { 240 } else { 3000 };
     let macs = ["join_spawn", "try_join_spawn", "spawn", "try_spawn"];
     c.progs = sample(seed, 0x0800, count, &cfg, &|i| Some(macs[i % 4]));
+    // a few wide programs: two-digit branch indices in the thread names
+    let mut wide = cfg.clone();
+    wide.n = (11, 14);
+    wide.depth = (1, 2);
+    wide.cell = (0, 1);
+    wide.wrappers = 0.0;
+    wide.caps = 0.0;
+    c.progs.extend(sample(seed, 0x0801, if tier == "quick" { 8 } else { 48 }, &wide, &|i| Some(macs[i % 4])));
     // a third of the programs pass the thread handles through a custom joiner: the threads of a step
     // must be alive at the same time with it too
     for (i, p) in c.progs.iter_mut().enumerate() {
@@ -300,7 +308,7 @@ fn c08(tier: &str, seed: u64) -> GridCheck {
         }
     }
     c.budget = if tier == "quick" { 24 } else { 120 };
-    c.rule = "programs: random grid programs under join_spawn / try_join_spawn / spawn / try_spawn, 1-6 branches, depth profiles with single-active-branch steps, a third of them with a custom joiner that passes the thread handles through; the macro is evaluated on a harness thread that is unnamed or named (`main`, `w_join_3` = the name a nested spawn macro's branch thread has, a name with odd characters). Schedules as C03 (gated callbacks, release permutations). Oracle: rendezvous - with all gates of a multi-branch step held closed every active branch arrives (distinct threads, none the caller's; a branch waiting for a sibling could never arrive); every callback of branch i in such a step runs on a thread named `<caller>_join_<i>` / `join_<i>`; a single active branch runs on the calling thread; the caller has not continued before the last release. Non-trivial = a multi-branch step together with a single-active step or a nested-style caller name".to_string();
+    c.rule = "programs: random grid programs under join_spawn / try_join_spawn / spawn / try_spawn, 1-6 branches (a few with 11-14), depth profiles with single-active-branch steps, a third of them with a custom joiner that passes the thread handles through; the macro is evaluated on a harness thread that is unnamed or named (`main`, `w_join_3` = the name a nested spawn macro's branch thread has, a name with odd characters, the empty name, a non-ASCII name). Schedules as C03 (gated callbacks, release permutations). Oracle: rendezvous - with all gates of a multi-branch step held closed every active branch arrives (distinct threads, none the caller's; a branch waiting for a sibling could never arrive); every callback of branch i in such a step runs on a thread named `<caller>_join_<i>` / `join_<i>`; a single active branch runs on the calling thread; the caller has not continued before the last release. Non-trivial = a multi-branch step together with a single-active step or a nested-style caller name".to_string();
     c.assumptions.push("nesting of spawn macros is represented by evaluating the macro on a thread that carries the name a nested branch thread would have (real nesting is exercised by C17)".to_string());
     c
 }
@@ -393,6 +401,9 @@ pub fn c07_post(progs: &[Prog], reports: &[serde_json::Value]) -> Vec<(usize, se
             if !(timeout(np) || timeout(ns) || timeout(na)) && (np != ns || ns != na) {
                 bad = Some((is, format!("evaluated on a thread with a long non-ASCII name: {}! {}, {}! {}, {}! {}", progs[ip].mac, np, progs[is].mac, ns, progs[ia].mac, na)));
             }
+        }
+        if bad.is_none() && (rp["c07"]["outside"] != rs["c07"]["outside"] || rs["c07"]["outside"] != ra["c07"]["outside"]) {
+            bad = Some((is, format!("single-branch program driven outside any runtime: {}! {}, {}! {}, {}! {}", progs[ip].mac, rp["c07"]["outside"], progs[is].mac, rs["c07"]["outside"], progs[ia].mac, ra["c07"]["outside"])));
         }
         if bad.is_none() && (rp["c07"]["gated"] != rs["c07"]["gated"] || rs["c07"]["gated"] != ra["c07"]["gated"]) {
             bad = Some((
@@ -564,7 +575,8 @@ fn c16_progs(seed: u64, count: usize, fx: bool) -> Vec<Prog> {
         cfg.equal_depths = 0.2;
         let mut opts = Opts::default();
         if fx {
-            opts.futures_path = Some("::jvrt::fx".to_string());
+            // (every other program spells the path as a single identifier: `use jvrt::fx as jvfx;`)
+            opts.futures_path = Some(if (i / 6) % 2 == 1 { "jvfx".to_string() } else { "::jvrt::fx".to_string() });
             if variant == 1 && kind.is_try {
                 opts.transpose = Some(false); // the default for try async, written out
             }
@@ -619,6 +631,11 @@ fn c16_progs(seed: u64, count: usize, fx: bool) -> Vec<Prog> {
             }
         } else {
             match variant {
+                2 if kind.is_try => {
+                    // a joiner that returns the tuple of Results, transposed by the macro in every step
+                    opts.joiner = Some("jv_ajoin".into());
+                    opts.transpose = Some(true);
+                }
                 0 | 2 => opts.joiner = Some(if kind.is_try { "jv_atry" } else { "jv_ajoin" }.into()),
                 1 => {
                     opts.joiner = Some(if kind.is_try { "jv_atry" } else { "jv_ajoin" }.into());
